@@ -13,7 +13,12 @@ import time
 ROOT = os.path.dirname(os.path.dirname(os.path.abspath(__file__)))
 BUILD = os.path.join(ROOT, ".build")
 COQ = os.path.join(ROOT, "coq")
-REPO = "/repo"
+# /repo is what every registered command checks. VERIF_REPO / VERIF_OUT exist only for the
+# mutant-validation workflow (tools/seedtest.py): they point the harness builds at a scratch
+# worktree of /repo and the evidence/replay output at a scratch directory, so that a seeded
+# change never has to be applied to /repo while other work is going on there.
+REPO = os.environ.get("VERIF_REPO", "/repo")
+OUT = os.environ.get("VERIF_OUT", ROOT)
 GUARD = "leptos_verif"
 
 FORBIDDEN = re.compile(
@@ -282,6 +287,23 @@ def build_harness(crate, extra_env=None, features=None):
     """cargo build --release of /verif/harness/<crate> against /repo's working tree"""
     d = os.path.join(ROOT, "harness", crate)
     tgt = os.path.join(BUILD, "target", crate)
+    if REPO != "/repo":
+        # scratch copy of the harness crates with their path dependencies re-pointed
+        tag = hashlib.sha1(REPO.encode()).hexdigest()[:8]
+        alt = os.path.join(BUILD, "alt", tag)
+        for c in set([crate, "sexp"]):
+            dst = os.path.join(alt, c)
+            shutil.rmtree(dst, ignore_errors=True)
+            shutil.copytree(os.path.join(ROOT, "harness", c), dst, ignore=shutil.ignore_patterns("target", "Cargo.lock"))
+            for dirpath, _, files in os.walk(dst):
+                for fn in files:
+                    if fn.endswith((".toml", ".rs", ".py")):
+                        fp = os.path.join(dirpath, fn)
+                        txt = open(fp).read()
+                        if "/repo/" in txt:
+                            open(fp, "w").write(txt.replace("/repo/", REPO.rstrip("/") + "/"))
+        d = os.path.join(alt, crate)
+        tgt = os.path.join(BUILD, "target", crate + "-alt-" + tag)
     os.makedirs(tgt, exist_ok=True)
     env = {
         "CARGO_NET_OFFLINE": "true",
@@ -388,7 +410,7 @@ def case_hash(c):
 
 
 def write_replay(pid, payload):
-    d = os.path.join(ROOT, "evidence", "replay")
+    d = os.path.join(OUT, "evidence", "replay")
     os.makedirs(d, exist_ok=True)
     h = hashlib.sha1(json.dumps(payload, sort_keys=True, default=str).encode()).hexdigest()[:10]
     p = os.path.join(d, "%s-%s.json" % (pid, h))
@@ -398,7 +420,7 @@ def write_replay(pid, payload):
 
 
 def write_evidence(pid, ev):
-    d = os.path.join(ROOT, "evidence")
+    d = os.path.join(OUT, "evidence")
     os.makedirs(d, exist_ok=True)
     with open(os.path.join(d, pid + ".json"), "w") as f:
         json.dump(ev, f, indent=1, default=str)
